@@ -4,7 +4,7 @@
    (Reshape.reshape_identity), so redirecting every use of its output — node inputs, nested-graph captures,
    graph outputs — to the data input and deleting the node preserves the model's outputs (Redirect.v). *)
 From Coq Require Import ZArith String List Bool Arith Lia.
-From J2O Require Import PyLib Tensor Graph Redirect Reshape.
+From J2O Require Import PyLib Tensor Graph Redirect Preserve Reshape.
 Import ListNotations.
 
 (* graph + what the pass reads besides the topology: declared static shapes and constant int vectors *)
@@ -20,7 +20,7 @@ Definition shape_matches (s : list nat) (tgt : list Z) : bool := list_eqb Z.eqb 
 Definition decide (g : rgraph) (n : node) : option (name * name) :=      (* (dst, data) *)
   if negb (String.eqb (n_op n) "Reshape") then None else
   match n_ins n, n_outs n with
-  | data :: shp :: _, dst :: _ =>
+  | data :: shp :: _, [dst] =>       (* Reshape has exactly one output; the Python reads outs[0] *)
       match rg_const g shp with
       | None => None
       | Some tgt =>
@@ -94,66 +94,117 @@ Section Sound.
 
   Lemma teq_refl' (a : V) : teq a a. Proof. apply teq_refl. Qed.
 
-  Theorem idreshape_step_sound g g' e :
-    admissible g e -> idreshape_step g = Some g' -> refinesg (rg_graph g) (rg_graph g') e.
+  (* what a positive decision says *)
+  Lemma decide_spec g n dst data : decide g n = Some (dst, data) ->
+    n_op n = "Reshape"%string /\ n_outs n = [dst] /\ data <> dst /\
+    exists shp insr tgt s, n_ins n = data :: shp :: insr /\ rg_const g shp = Some tgt /\ rg_shape g data = Some s /\
+                           shape_matches s tgt = true.
   Proof.
-    intros Hadm Hstep. unfold idreshape_step in Hstep.
-    destruct (first_action g (rg_nodes g)) as [[dst data]|] eqn:Efa; [|discriminate]. injection Hstep as <-.
-    destruct (first_action_in g _ _ Efa) as (n & Hn & Hd). unfold decide in Hd.
-    destruct (String.eqb_spec (n_op n) "Reshape") as [Hop|]; [|discriminate]. simpl in Hd.
+    unfold decide. destruct (String.eqb_spec (n_op n) "Reshape") as [Hop|]; [|discriminate]. simpl.
     destruct (n_ins n) as [|data' [|shp insr]] eqn:Hins; try discriminate.
-    destruct (n_outs n) as [|dst' outsr] eqn:Houts; try discriminate.
+    destruct (n_outs n) as [|dst' [|]] eqn:Houts; try discriminate.
     destruct (rg_const g shp) as [tgt|] eqn:Ec; [|discriminate].
     destruct tgt as [|t0 tr] eqn:Et; [discriminate|]. rewrite <- Et in *.
     destruct (existsb _ tgt) eqn:Ex; [discriminate|].
     destruct (rg_shape g data') as [s|] eqn:Es; [|discriminate].
-    destruct (shape_matches s tgt) eqn:Em; [|discriminate]. simpl in Hd.
+    destruct (shape_matches s tgt) eqn:Em; [|discriminate]. simpl.
     destruct (match rg_shape g dst' with Some sd => negb (shape_matches sd tgt) | None => false end); [discriminate|].
     destruct (Nat.eqb data' dst') eqn:Hself; [discriminate|].
-    injection Hd as <- <-.
-    destruct (shape_matches_spec _ _ Em) as [Hmap Hpos].
-    pose proof (adm_ssa _ _ Hadm) as Hssa.
-    unfold apply_action. cbn [fst snd rg_graph rg_nodes rg_outputs].
-    change (mkGraph (g_nodes (redirect_remove dst' data' (rg_graph g))) (g_outputs (redirect_remove dst' data' (rg_graph g))))
-      with (redirect_remove dst' data' (rg_graph g)).
-    (* value of the Reshape node in the final environment *)
-    assert (Hval : forall ef a, evalg (rg_nodes g) e = Some ef -> ef dst' = Some a -> exists b, ef data' = Some b /\ teq a b).
-    { intros ef a Hev Ha.
-      destruct (eval_consistent V sem _ _ _ n Hssa Hev Hn) as (vs & oo & Hl & Hs & Hlo).
-      rewrite Hop in Hs. destruct (sem_reshape _ _ _ Hs) as (x & sv & -> & Hre).
-      unfold n_uses in Hl. rewrite Hins in Hl. simpl in Hl.
-      destruct (ef data') as [vx|] eqn:Ex'; [|discriminate]. destruct (ef shp) as [vs'|] eqn:Eshp; [|discriminate].
-      destruct (lookups V ef (insr ++ n_caps n)) as [rest|]; [|discriminate].
-      injection Hl as Hx1 Hx2 Hx3. subst x sv.
-      pose proof (adm_const _ _ Hadm ef shp tgt vs' Hev Ec Eshp) as Hden.
-      specialize (Hre tgt Hden Hpos). subst oo.
-      rewrite Houts in Hlo. simpl in Hlo. rewrite Ha in Hlo.
-      destruct outsr; simpl in Hlo; [|destruct (ef n0); [destruct (lookups V ef outsr)|]; discriminate].
-      injection Hlo as ->. exists vx. split; auto.
-      rewrite Hmap. rewrite <- (adm_shape _ _ Hadm ef data' s vx Hev Es Ex'). apply reshape_identity. }
-    assert (Hne : data' <> dst') by (intro; subst; rewrite Nat.eqb_refl in Hself; discriminate).
-    eapply (redirect_remove_producer_sound V teq teq_refl' (@teq_sym A) (@teq_trans A) sem sem_proper (rg_graph g) e n dst' data'); eauto.
-    - unfold n_uses. rewrite Hins. now left.
-    - rewrite Houts. now left.
+    intro H. injection H as <- <-. repeat split; auto.
+    - intro E. subst. rewrite Nat.eqb_refl in Hself. discriminate.
+    - exists shp, insr, tgt, s. auto.
   Qed.
 
-  Fixpoint admissible_along (fuel : nat) (g : rgraph) (e : env V) : Prop :=
-    admissible g e /\
-    match fuel with
-    | O => True
-    | S k => match idreshape_step g with Some g' => admissible_along k g' e | None => True end
-    end.
+  (* the value of an identity Reshape is the value of its data input *)
+  Lemma reshape_value g e n dst data ef a :
+    admissible g e -> In n (rg_nodes g) -> decide g n = Some (dst, data) ->
+    evalg (rg_nodes g) e = Some ef -> ef dst = Some a -> exists b, ef data = Some b /\ teq a b.
+  Proof.
+    intros Hadm Hn Hd Hev Ha.
+    destruct (decide_spec _ _ _ _ Hd) as (Hop & Houts & _ & shp & insr & tgt & s & Hins & Ec & Es & Em).
+    destruct (shape_matches_spec _ _ Em) as [Hmap Hpos].
+    pose proof (adm_ssa _ _ Hadm) as Hssa.
+    destruct (eval_consistent V sem _ _ _ n Hssa Hev Hn) as (vs & oo & Hl & Hs & Hlo).
+    rewrite Hop in Hs. destruct (sem_reshape _ _ _ Hs) as (x & sv & -> & Hre).
+    unfold n_uses in Hl. rewrite Hins in Hl. simpl in Hl.
+    destruct (ef data) as [vx|] eqn:Ex'; [|discriminate]. destruct (ef shp) as [vs'|] eqn:Eshp; [|discriminate].
+    destruct (lookups V ef (insr ++ n_caps n)) as [rest|]; [|discriminate].
+    injection Hl as Hx1 Hx2 Hx3. subst x sv.
+    pose proof (adm_const _ _ Hadm ef shp tgt vs' Hev Ec Eshp) as Hden.
+    specialize (Hre tgt Hden Hpos). subst oo.
+    rewrite Houts in Hlo. simpl in Hlo. rewrite Ha in Hlo. injection Hlo as ->.
+    exists vx. split; auto.
+    rewrite Hmap. rewrite <- (adm_shape _ _ Hadm ef data s vx Hev Es Ex'). apply reshape_identity.
+  Qed.
 
-  Theorem idreshape_pass_sound : forall fuel g e, admissible_along fuel g e ->
+  Lemma step_inv g g' : idreshape_step g = Some g' ->
+    exists n dst data, In n (rg_nodes g) /\ decide g n = Some (dst, data) /\
+      g' = mkRG (g_nodes (redirect_remove dst data (rg_graph g))) (g_outputs (redirect_remove dst data (rg_graph g))) (rg_shape g) (rg_const g).
+  Proof.
+    unfold idreshape_step. destruct (first_action g (rg_nodes g)) as [[dst data]|] eqn:Efa; [|discriminate].
+    intro H. injection H as <-. destruct (first_action_in g _ _ Efa) as (n & Hn & Hd). exists n, dst, data. auto.
+  Qed.
+
+  Theorem idreshape_step_sound g g' e :
+    admissible g e -> idreshape_step g = Some g' -> refinesg (rg_graph g) (rg_graph g') e.
+  Proof.
+    intros Hadm Hstep. destruct (step_inv _ _ Hstep) as (n & dst & data & Hn & Hd & ->).
+    destruct (decide_spec _ _ _ _ Hd) as (_ & Houts & Hne & shp & insr & tgt & s & Hins & _).
+    change (rg_graph (mkRG (g_nodes (redirect_remove dst data (rg_graph g))) (g_outputs (redirect_remove dst data (rg_graph g))) (rg_shape g) (rg_const g)))
+      with (redirect_remove dst data (rg_graph g)).
+    eapply (redirect_remove_producer_sound V teq teq_refl' (@teq_sym A) (@teq_trans A) sem sem_proper (rg_graph g) e n dst data); eauto.
+    - exact (adm_ssa _ _ Hadm).
+    - unfold n_uses. rewrite Hins. now left.
+    - rewrite Houts. now left.
+    - intros ef a Hev Ha. eapply reshape_value; eauto.
+  Qed.
+
+  (* the annotations stay TRUE across the rewrite (values are preserved up to teq, which keeps shapes), so the
+     admissibility of the INPUT graph is all the loop needs *)
+  Hypothesis denotes_proper : forall a a' l, teq a a' -> denotes a l -> denotes a' l.
+
+  Theorem idreshape_step_admissible g g' e ef :
+    admissible g e -> evalg (rg_nodes g) e = Some ef -> idreshape_step g = Some g' -> admissible g' e.
+  Proof.
+    intros Hadm Hev Hstep. destruct (step_inv _ _ Hstep) as (n & dst & data & Hn & Hd & ->).
+    destruct (decide_spec _ _ _ _ Hd) as (_ & Houts & Hne & shp & insr & tgt & s & Hins & _).
+    pose proof (adm_ssa _ _ Hadm) as Hssa.
+    assert (Hav : avail_before V sem (rg_nodes g) e data dst).
+    { eapply (avail_from_producer V sem (rg_nodes g) e n data dst); eauto.
+      - unfold n_uses. rewrite Hins. now left.
+      - rewrite Houts. now left. }
+    destruct (redirect_remove_env V teq teq_refl' (@teq_sym A) (@teq_trans A) sem sem_proper (rg_graph g) e dst data ef Hssa Hne
+                (fun a Ha => reshape_value g e n dst data ef a Hadm Hn Hd Hev Ha) Hav Hev) as (ef' & Hev' & Hrel).
+    assert (Hex : existsb (node_is dst) (rg_nodes g) = true).
+    { apply existsb_exists. exists n. split; auto. unfold node_is. rewrite Houts. apply Nat.eqb_refl. }
+    pose proof (redirect_remove_o_undefined V sem (rg_graph g) e dst data ef' Hssa Hex Hev') as Hundef.
+    constructor; cbn [rg_nodes rg_shape rg_const].
+    - exact (redirect_remove_ssa V (rg_graph g) e dst data Hssa).
+    - intros ef2 x s0 a' Hev2 Hs Hx. rewrite Hev' in Hev2. injection Hev2 as <-.
+      destruct (Nat.eq_dec x dst) as [->|Hxd]; [congruence|].
+      destruct (Hrel x a' Hxd Hx) as (a0 & Ha0 & [Hsh _]).
+      rewrite <- Hsh. eapply (adm_shape _ _ Hadm); eauto.
+    - intros ef2 x l a' Hev2 Hc Hx. rewrite Hev' in Hev2. injection Hev2 as <-.
+      destruct (Nat.eq_dec x dst) as [->|Hxd]; [congruence|].
+      destruct (Hrel x a' Hxd Hx) as (a0 & Ha0 & Hteq).
+      eapply denotes_proper; eauto. eapply (adm_const _ _ Hadm); eauto.
+  Qed.
+
+  (* THE PASS: for every graph that is admissible when the pass starts *)
+  Theorem idreshape_pass_sound : forall fuel g e, admissible g e ->
     refinesg (rg_graph g) (rg_graph (idreshape_pass fuel g)) e.
   Proof.
-    induction fuel as [|k IH]; simpl; intros g e [Hadm Hrest].
+    induction fuel as [|k IH]; simpl; intros g e Hadm.
     - apply (refines_refl V teq teq_refl' sem).
-    - destruct (idreshape_step g) as [g'|] eqn:Es.
-      + eapply (refines_trans V teq (@teq_trans A) sem).
-        * eapply idreshape_step_sound; eauto.
-        * apply IH. exact Hrest.
-      + apply (refines_refl V teq teq_refl' sem).
+    - destruct (idreshape_step g) as [g'|] eqn:Es; [|apply (refines_refl V teq teq_refl' sem)].
+      intros out Hrun.
+      assert (Hev : exists ef, evalg (rg_nodes g) e = Some ef).
+      { unfold run in Hrun. simpl in Hrun. destruct (evalg (rg_nodes g) e); [eauto|discriminate]. }
+      destruct Hev as [ef Hev].
+      pose proof (idreshape_step_admissible g g' e ef Hadm Hev Es) as Hadm'.
+      revert out Hrun. eapply (refines_trans V teq (@teq_trans A) sem).
+      + eapply idreshape_step_sound; eauto.
+      + apply IH. exact Hadm'.
   Qed.
 End Sound.
 
